@@ -180,8 +180,11 @@ impl St {
                                     }
                                     return Ok(());
                                 }
-                                Step::Last | Step::Fold | Step::RevCollect | Step::Skip(_) | Step::StepBy(_) | Step::Fork => {
+                                Step::Last | Step::Fold | Step::RevCollect | Step::Skip(_) | Step::StepBy(_) | Step::Fork | Step::RFold | Step::RevLast => {
                                     let (v, want): (Vec<Tracked>, Vec<u32>) = match st {
+                                        Step::Fold => (d.fold_collect(), before[lo..hi].iter().map(|m| m.0).collect()),
+                                        Step::RFold => (d.rfold_collect(), before[lo..hi].iter().rev().map(|m| m.0).collect()),
+                                        Step::RevLast => (d.rev_last().into_iter().collect(), before[lo..hi].iter().take(1).map(|m| m.0).collect()),
                                         Step::Last => (d.last_rest().into_iter().collect(), before[lo..hi].iter().rev().take(1).map(|m| m.0).collect()),
                                         Step::RevCollect => (d.rev_collect_rest(), before[lo..hi].iter().rev().map(|m| m.0).collect()),
                                         Step::Skip(k) => (d.skip_collect(*k as usize), before[lo..hi].iter().skip(*k as usize).map(|m| m.0).collect()),
